@@ -85,10 +85,24 @@ impl<'a> SectionsBuilder<'a> {
             return;
         }
 
-        self.section_block(&blocks[range.start]);
+        // a list item may start with a block that carries no text of its own (a code block, quote,
+        // rule or table, e.g. "- ```" while typing): the item gets an empty line of text and the
+        // block becomes its first child
+        let starts_with_text = matches!(
+            &blocks[range.start],
+            Para(_) | Plain(_) | Header(_) | Div(_) | BulletList(_) | OrderedList(_)
+        );
+
+        let rest = if starts_with_text {
+            self.section_block(&blocks[range.start]);
+            range.start + 1..range.end
+        } else {
+            self.builder.section(vec![]);
+            range.clone()
+        };
 
         let id = self.builder.id();
-        self.process_blocks(range.start + 1..range.end, blocks);
+        self.process_blocks(rest, blocks);
         self.builder.set_id(id)
     }
 
